@@ -217,6 +217,10 @@ func c03Run(t *testing.T, job *c03Job) (out c03Out) {
 				err = s.endParkedFlush(true)
 			case 'S':
 				err = s.restart()
+				if errors.Is(err, rpErrResurrected) {
+					out.viol = &c03Viol{"restored-bytes-never-appended", err.Error()}
+					return
+				}
 				if err != nil {
 					// a partition that cannot be reopened is C06's subject, not C03's
 					out.restoreE = true
